@@ -54,10 +54,12 @@ var SshKeywords = []string{
 
 var (
 	PoolUsers = []string{"root", "core", "auditomalditotesting", "a", "user.name", "first_last", "user@example.com",
-		"web-admin", "machine$", "üser", "用户", "u1234", "_svc", "A.B-c_d@e$", "007", "n" + strings.Repeat("x", 31), "Ωmega-1"}
+		"web-admin", "machine$", "üser", "用户", "u1234", "_svc", "A.B-c_d@e$", "007", "n" + strings.Repeat("x", 31), "Ωmega-1",
+		"u" + strings.Repeat("0123456789", 9) + "123456789"} // the last one: sshd's %.100s limit
 	PoolIPs = []string{"127.0.0.1", "0.0.0.0", "255.255.255.255", "10.1.2.3", "192.168.100.200", "::1", "2001:db8::1",
 		"2001:0db8:0000:0000:0000:ff00:0042:8329", "::ffff:192.0.2.1", "fe80::1%eth0", "fe80::a00:27ff:fe4e:66a1%enp0s3"}
-	PoolHosts = []string{"host.example.com", "localhost", "a-b.c-d.example", "xn--nxasmq6b.example", "UPPER.Example.ORG", "h"}
+	PoolHosts = []string{"host.example.com", "localhost", "a-b.c-d.example", "xn--nxasmq6b.example", "UPPER.Example.ORG", "h",
+		strings.Repeat("long-host-label.", 11) + "example.net"} // ~190 characters (%.200s)
 	PoolPorts = []string{"0", "1", "22", "1023", "1024", "32768", "49152", "65534", "65535"}
 	PoolKeyT  = []string{"RSA", "DSA", "ECDSA", "ED25519", "ECDSA-SK", "ED25519-SK", "XMSS"}
 	PoolKeyID = []string{"foo@bar.com", "user name", "id (with parens)", "serial", "a (serial 7)", "x serial y",
@@ -66,7 +68,8 @@ var (
 	PoolShell  = []string{"/bin/bash", "/usr/bin/zsh", "/opt/my shell/sh", "/bin/false", "/sbin/nologin", "/usr/local/bin/fish", "sh"}
 	PoolPath   = []string{"/home/u/.ssh/authorized_keys", "/home/user name/.ssh/authorized_keys", "/etc/ssh/revoked_keys",
 		"/etc/ssh/revoked keys", "/", "/root/.ssh/authorized_keys2", "/данные/keys"}
-	PoolDNS    = []string{"host.example.com", "evil.example.org", "a.b", "xn--e1afmkfd.example", "bad_name!.example", "UPPER.example", "x"}
+	PoolDNS = []string{"host.example.com", "evil.example.org", "a.b", "xn--e1afmkfd.example", "bad_name!.example", "UPPER.example", "x",
+		strings.Repeat("sub-domain-label.", 18) + "example.org", strings.Repeat("a234567890.", 62) + "example"} // ~320 and ~690 characters (sshd prints up to %.700s)
 	PoolReason = []string{"expired", "not yet valid", "name is not a listed principal", "corrupt signature",
 		"Certificate lacks principal list", "reason with  double space", "причина", "a: b: c"}
 )
